@@ -22,13 +22,13 @@ Print Assumptions clean_eof_only_after_close_notify.
 (* (1') ... and the pump does not invent that outcome: for every state of the transport and every answer sequence of
    the SSL object / wrapped transport, a recv() that reports end-of-stream has either seen ssl_object.read return b""
    or consumed an answer of the SSL object that was SSLZeroReturnError (or an SSL EOF error when std = false). *)
-Theorem clean_eof_comes_from_the_ssl_object : forall std n st answers st' ob rest,
-  run_op std (ORecv n) st answers = (st', ob, rest) ->
+Theorem clean_eof_comes_from_the_ssl_object : forall (fl : flags) std n st answers st' ob rest,
+  run_op fl std (ORecv n) st answers = (st', ob, rest) ->
   In (ORes (Ret 0)) ob ->
-  (exists s' acts, run_method MRead n (sh st) answers = (s', ROk 0, acts, rest)) \/
+  (exists s' acts, run_method fl MRead n (sh st) answers = (s', ROk 0, acts, rest)) \/
   (exists x, In (AS x) answers /\
              (a_out x = SErr EZeroReturn \/ (std = false /\ (a_out x = SErr ESslEof \/ a_out x = SErr ESslEofStr)))).
-Proof. exact recv_eof_from_oracle. Qed.
+Proof. exact recv_eof_from_oracle. Qed.   (* fl: both states of the two C08 fixes, see Conc/TlsPump.v *)
 Print Assumptions clean_eof_comes_from_the_ssl_object.
 
 (* (2) Standard-compatible mode: every SSL EOF error (SSLEOFError, or the stringly-typed UNEXPECTED_EOF_WHILE_READING
@@ -70,12 +70,12 @@ Print Assumptions nonstd_abrupt_is_eof_blocking.
    handed to the wrapped transport's send_all before anything else, and the wrapped transport is closed afterwards.
    For every later answer sequence (send failure, timeout, cancellation, peer silent ...).  ORes Desync can only occur
    if the answer list is not one the code can consume (e.g. too short); the driver never produces such lists. *)
-Theorem close_sends_notify : forall st a answers st' ob rest,
+Theorem close_sends_notify : forall (fl : flags) st a answers st' ob rest,
   closing st = false -> tr_closing st = false -> send_lock (sh st) = false ->
   a_meth a = MUnwrap -> a_arg a = 0 ->
   ((exists v, a_out a = SOk v) \/ a_out a = SWantRead) ->
   wbio (sh st) ++ a_wdelta a <> [] ->
-  run_op true OClose st (AS a :: answers) = (st', ob, rest) ->
+  run_op fl true OClose st (AS a :: answers) = (st', ob, rest) ->
   exists ob', ob = OAct (ASend (wbio (sh st) ++ a_wdelta a)) :: ob' /\
               (In (OAct AClose) ob' \/ In (ORes Desync) ob').
 Proof. exact aclose_first_action. Qed.
@@ -91,9 +91,9 @@ Proof. exact unwrap_emits_close_notify. Qed.
 Print Assumptions ideal_unwrap_emits_close_notify.
 
 (* (4'') with standard-compatible mode disabled the closing handshake is skipped. *)
-Theorem nonstd_close_skips_notify : forall st answers,
+Theorem nonstd_close_skips_notify : forall (fl : flags) st answers,
   closing st = false ->
-  run_op false OClose st answers =
+  run_op fl false OClose st answers =
     ({| sh := set_deque (sh st) []; closing := true; tr_closing := true |}, [OAct AClose; ORes (Ret 0)], answers).
 Proof. exact nonstd_close_no_unwrap. Qed.
 Print Assumptions nonstd_close_skips_notify.
@@ -145,7 +145,7 @@ Example ex_cut_mid_record : drain Dx 9 (ex_reader 6) 2 = [SOk 2; SOk 1; SErr ESs
 Proof. vm_compute. reflexivity. Qed.
 (* the hypotheses of close_sends_notify are met by the ideal layer's first unwrap; aclose then sends the notification *)
 Example ex_close :
-  fst (fst (run_op true OClose tstate0
+  fst (fst (run_op {| f_recheck := false; f_skiplock := false |} true OClose tstate0
      [AS {| a_meth := MUnwrap; a_arg := 0; a_out := SWantRead; a_wdelta := close_notify Ex |}; AT TSent; AT (TRcvd [])%N;
       AS {| a_meth := MUnwrap; a_arg := 0; a_out := SErr ESslEof; a_wdelta := [] |}]))
   = {| sh := set_feeds shared0 1; closing := true; tr_closing := true |}.
